@@ -801,6 +801,15 @@ class FnSplicer:
         effect of the callee on the system can be specified (Verus has no interior mutability)."""
         toks = self.src.toks
         i = kwi
+        if pname == 'self':
+            # `&self` -> `&mut self`
+            while i < pclose:
+                if toks[i].text == '&' and toks[i + 1].text == 'self':
+                    self.segs.insert(toks[i + 1].start, 'mut ', 'param-shared-to-mut', order=3)
+                    self.counts['param-shared-to-mut'] = self.counts.get('param-shared-to-mut', 0) + 1
+                    return
+                i += 1
+            raise ExtractError('param-shared-to-mut: `&self` not found')
         while i < pclose:
             if toks[i].kind == 'ident' and toks[i].text == pname and toks[i + 1].text == ':' and toks[i + 2].text == '&':
                 j = i + 3
